@@ -15,7 +15,7 @@ Definition fb_of (utf8 : bool) (w : list byte) : N -> N := if utf8 then fb_str w
 (* Callback oracle used by the harness definitions.  Behaviour code per leaf:
    0 = emit; 1 = skip; >= 10 = a callback of the harness corpus (corpus/engine/callbacks_plain.rs)
    that decides by the checksum k = (sum of the matched bytes + their number) mod 4 through the
-   table of its return type; 25 additionally bumps. *)
+   table of its return type; 25 bumps and emits, 26 bumps and skips. *)
 Fixpoint sum_bytes (l : list byte) : N := match l with [] => 0 | b :: r => b + sum_bytes r end.
 Definition slice (w : list byte) (s e : N) : list byte :=
   firstn (N.to_nat (e - s)) (skipn (N.to_nat s) w).
@@ -45,6 +45,8 @@ Definition act_of (utf8 : bool) (codes : list N) (w : list byte) (l : leaf) (s e
   | 1 => (ASkip, 0)
   | 25 => let want := sum_bytes (slice w s e) mod 3 in
           (AEmit, if boundary_at utf8 w (e + want) then want else 0)
+  | 26 => let want := sum_bytes (slice w s e) mod 3 in          (* bumps, then asks for the match to be skipped *)
+          (ASkip, if boundary_at utf8 w (e + want) then want else 0)
   | code => (table code (cksum w s e), 0)
   end.
 
